@@ -4,7 +4,9 @@
   its cause:
   * critical / success (`react s`): every job of the reacted `done` set — among them the critical job that raised,
     resp. the jobs that complete the count of regular jobs — ended (body, or nested run) with no `tick` since;
-  * timeout (`timeoutFire s`): the clock reads exactly `begin + T`, an instant not reached before the last `tick`;
+  * timeout (`timeoutFire s`, or a `react s` that notices the expiry): the clock reads exactly `begin + T`, an
+    instant not reached before the last `tick` — and in the second case the jobs of the reacted `done` set ended
+    with no `tick` since;
   * cancelled (`cancelArrive s`): the cancellation of the task of `s` was requested with no `tick` since.
 
   Proof scheme (`last_cause`): a state predicate that holds initially and in every quiet state (the clock advances
@@ -325,21 +327,15 @@ theorem now_const (c : Cfg) (b : List EvB) :
         now_step c st st1 e hs (hb e (List.mem_cons_self ..))]
     · cases h
 
-/-- C08 "at that same instant": `timeoutFire s` occurs exactly at the instant `begin + T` (not later), and before
-    the last `tick` of the history that instant had not been reached: the expiry is noticed at the first instant
-    at which it is due -/
-theorem fire_at_deadline (c : Cfg) (hwf : c.wf = true) (evs : List EvB) (s : Nat) (st0 st : StB)
-    (h0 : acceptB c StB.init evs = some st0) (h1 : stepB c st0 (.timeoutFire s) = some st) :
+/-- a run in its main loop whose deadline is reached: the clock reads exactly `begin + T` (not later), and before
+    the last `tick` of the history that instant had not been reached -/
+theorem expiry_at_deadline (c : Cfg) (hwf : c.wf = true) (evs : List EvB) (s : Nat) (st0 : StB)
+    (h0 : acceptB c StB.init evs = some st0) (hl : st0.pcB s = .loop)
+    (hex : expired (st0.deadline s) st0.a.now = true) :
     ∃ T, c.timeout s = some T ∧ st0.a.now = st0.tbegin s + T ∧
       ∀ a d b sta, evs = a ++ .tick d :: b → acceptB c StB.init a = some sta → (∀ x ∈ b, isTick x = false) →
         sta.a.now < st0.tbegin s + T ∧ sta.a.now + d = st0.tbegin s + T := by
   have hB := invB_reach c hwf evs st0 h0
-  have hg : st0.pcB s = .loop ∧ expired (st0.deadline s) st0.a.now = true := by
-    simp only [stepB] at h1
-    split at h1
-    · next hg => exact ⟨hg.1, hg.2.2.2.2⟩
-    · cases h1
-  obtain ⟨hl, hex⟩ := hg
   have hde := hB.deadlineEq s hl
   cases hT : c.timeout s with
   | none => rw [hT] at hde; simp [hde, expired] at hex
@@ -372,6 +368,38 @@ theorem fire_at_deadline (c : Cfg) (hwf : c.wf = true) (evs : List EvB) (s : Nat
       omega
     · cases h0
 
+/-- C08 "at that same instant": `timeoutFire s` occurs exactly at the instant `begin + T` (not later), and before
+    the last `tick` of the history that instant had not been reached: the expiry is noticed at the first instant
+    at which it is due -/
+theorem fire_at_deadline (c : Cfg) (hwf : c.wf = true) (evs : List EvB) (s : Nat) (st0 st : StB)
+    (h0 : acceptB c StB.init evs = some st0) (h1 : stepB c st0 (.timeoutFire s) = some st) :
+    ∃ T, c.timeout s = some T ∧ st0.a.now = st0.tbegin s + T ∧
+      ∀ a d b sta, evs = a ++ .tick d :: b → acceptB c StB.init a = some sta → (∀ x ∈ b, isTick x = false) →
+        sta.a.now < st0.tbegin s + T ∧ sta.a.now + d = st0.tbegin s + T := by
+  have hg : st0.pcB s = .loop ∧ expired (st0.deadline s) st0.a.now = true := by
+    simp only [stepB] at h1
+    split at h1
+    · next hg => exact ⟨hg.1, hg.2.2.2.2⟩
+    · cases h1
+  exact expiry_at_deadline c hwf evs s st0 h0 hg.1 hg.2
+
+/-- C08 "at that same instant": so does the reaction that takes the timeout exit — it occurs exactly at the instant
+    `begin + T` (a completion reported in the very instant of the deadline), not later -/
+theorem react_timeout_at_deadline (c : Cfg) (hwf : c.wf = true) (evs : List EvB) (s : Nat) (st0 st : StB)
+    (h0 : acceptB c StB.init evs = some st0) (h1 : stepB c st0 (.react s) = some st)
+    (hx : st.pcB s = .tidy .timeout) :
+    ∃ T, c.timeout s = some T ∧ st0.a.now = st0.tbegin s + T ∧
+      ∀ a d b sta, evs = a ++ .tick d :: b → acceptB c StB.init a = some sta → (∀ x ∈ b, isTick x = false) →
+        sta.a.now < st0.tbegin s + T ∧ sta.a.now + d = st0.tbegin s + T := by
+  have hB := invB_reach c hwf evs st0 h0
+  have hl : st0.pcB s = .loop := by
+    simp only [stepB] at h1
+    split at h1
+    · assumption
+    · cases h1
+  obtain ⟨dl, hdl, hle, _⟩ := ExitB.exit_reason c st0 st (.react s) s .timeout hB h1 hl hx
+  exact expiry_at_deadline c hwf evs s st0 h0 hl (by simp [expired, hdl, hle])
+
 /-! ### the theorems: a run leaves its main loop at the very instant of the cause -/
 
 /-- what caused the run of `s` to leave its main loop by event `e` in state `st0` (reached by `evs`), for each exit
@@ -380,7 +408,10 @@ theorem fire_at_deadline (c : Cfg) (hwf : c.wf = true) (evs : List EvB) (s : Nat
       (in particular that one) ended — its body, or its nested run — with no `tick` since;
     * success: `e` is the reaction that brings the count of reported regular jobs to their number, and every job of
       the (non-empty) reacted set ended with no `tick` since;
-    * timeout: `e` is the expiry, at the instant `begin + T` exactly, an instant not yet reached before the last `tick`;
+    * timeout: the clock reads `begin + T` exactly, an instant not yet reached before the last `tick`, and `e` is
+      the expiry event — or the reaction to a (non-empty) `done` set, without critical failure and that does not
+      complete the regular jobs, every job of which ended with no `tick` since (completions reported in the very
+      instant of the deadline);
     * cancelled: `e` is the delivery of the cancellation, requested with no `tick` since -/
 def ExitCause (c : Cfg) (evs : List EvB) (e : EvB) (s : Nat) (st0 : StB) : Exit → Prop
   | .critical => e = .react s ∧ ∃ D, st0.a.rx s = some D ∧
@@ -389,9 +420,14 @@ def ExitCause (c : Cfg) (evs : List EvB) (e : EvB) (s : Nat) (st0 : StB) : Exit 
   | .success => e = .react s ∧ ∃ D, st0.a.rx s = some D ∧ D ≠ [] ∧ critIn c st0.a D = false ∧
       st0.nbDone s + (D.filter fun d => !c.forever d).length = nbFinite c s ∧
       ∀ k ∈ D, k ∈ c.children s ∧ (st0.a.ph k).isDone = true ∧ CausedAt c evs (fun st e => jobEnds c st k e)
-  | .timeout => e = .timeoutFire s ∧ ∃ T, c.timeout s = some T ∧ st0.a.now = st0.tbegin s + T ∧
-      ∀ a d b sta, evs = a ++ .tick d :: b → acceptB c StB.init a = some sta → (∀ x ∈ b, isTick x = false) →
-        sta.a.now < st0.tbegin s + T ∧ sta.a.now + d = st0.tbegin s + T
+  | .timeout =>
+      (∃ T, c.timeout s = some T ∧ st0.a.now = st0.tbegin s + T ∧
+        ∀ a d b sta, evs = a ++ .tick d :: b → acceptB c StB.init a = some sta → (∀ x ∈ b, isTick x = false) →
+          sta.a.now < st0.tbegin s + T ∧ sta.a.now + d = st0.tbegin s + T) ∧
+      (e = .timeoutFire s ∨
+       (e = .react s ∧ ∃ D, st0.a.rx s = some D ∧ D ≠ [] ∧ critIn c st0.a D = false ∧
+          st0.nbDone s + (D.filter fun d => !c.forever d).length ≠ nbFinite c s ∧
+          ∀ k ∈ D, k ∈ c.children s ∧ (st0.a.ph k).isDone = true ∧ CausedAt c evs (fun st e => jobEnds c st k e)))
   | .cancelled => e = .cancelArrive s ∧ CausedAt c evs (cancelsTask c s)
 
 /-- C05 / C08 / C09 "at that same instant" (1): in every accepted history, the step by which a run leaves its main
@@ -416,9 +452,12 @@ theorem exit_no_latency (c : Cfg) (hwf : c.wf = true) (evs : List EvB) (e : EvB)
     exact ⟨he, D, hD, rx_nonempty c evs st0 h0 s D hD, hcrit, hcnt,
       fun k hk => reacted_no_latency c hwf evs s st0 h0 hloop D hD k hk⟩
   | timeout =>
-    obtain ⟨he, _⟩ := hr
-    subst he
-    exact ⟨rfl, fire_at_deadline c hwf evs s st0 st h0 h1⟩
+    obtain ⟨dl, hdl, hle, hr⟩ := hr
+    refine ⟨expiry_at_deadline c hwf evs s st0 h0 hloop (by simp [expired, hdl, hle]), ?_⟩
+    rcases hr with ⟨he, _⟩ | ⟨he, D, hD, hcrit, hcnt⟩
+    · exact Or.inl he
+    · exact Or.inr ⟨he, D, hD, rx_nonempty c evs st0 h0 s D hD, hcrit, hcnt,
+        fun k hk => reacted_no_latency c hwf evs s st0 h0 hloop D hD k hk⟩
   | cancelled =>
     subst hr
     exact ⟨rfl, cancel_no_latency c hwf evs s st0 st h0 h1⟩
@@ -521,6 +560,24 @@ example : ∃ st0 st, acceptB (exCfg false false (some 3)) StB.init exTmoEvs = s
     ExitCause (exCfg false false (some 3)) exTmoEvs (.timeoutFire 0) 0 st0 .timeout ∧
     st0.a.creq 2 = false ∧ st.a.creq 2 = true :=
   exApply _ (by decide) _ _ _ (by decide)
+
+/-- timeout noticed in a reaction: `timeout = 3` and job `1` returns at instant 3 = begin + 3; the reaction to its
+    completion takes the timeout exit and cancels job `2`, with no `tick` after `bodyEnd 1 true` -/
+def exTmoReactEvs : List EvB := [.runBegin, .grant 1, .grant 2, .tick 3, .bodyEnd 1 true, .waitReturn 0]
+
+example : ∃ st0 st, acceptB (exCfg false false (some 3)) StB.init exTmoReactEvs = some st0 ∧
+    stepB (exCfg false false (some 3)) st0 (.react 0) = some st ∧ st.pcB 0 = .tidy .timeout ∧
+    ExitCause (exCfg false false (some 3)) exTmoReactEvs (.react 0) 0 st0 .timeout ∧
+    st0.a.creq 2 = false ∧ st.a.creq 2 = true :=
+  exApply _ (by decide) _ _ _ (by decide)
+
+/-- … while the same reaction one instant earlier goes on (nothing is cancelled) -/
+example : (acceptB (exCfg false false (some 3)) StB.init
+      [.runBegin, .grant 1, .grant 2, .tick 2, .bodyEnd 1 true, .waitReturn 0, .react 0]).map
+      (fun st => (st.pcB 0, st.failT 0, st.a.creq 2)) = some (.loop, false, false) ∧
+    (acceptB (exCfg false false (some 3)) StB.init (exTmoReactEvs ++ [.react 0])).map
+      (fun st => (st.pcB 0, st.failT 0, st.a.creq 2)) = some (.tidy .timeout, true, true) := by
+  constructor <;> decide
 
 /-- … not before (the clock cannot go beyond the deadline either) -/
 example : (acceptB (exCfg false false (some 3)) StB.init [.runBegin, .grant 1, .grant 2, .tick 2, .timeoutFire 0]).isNone = true ∧
